@@ -529,9 +529,9 @@ class Gen:
                           '3000000000&'))
             return {'k': 'raw', 'text': 'print val("' + t + '")'}
         if x < 0.4:
-            return {'k': 'raw', 'text': r.choice(('a9& = 7 : b9& = 400000 : print a9& ^ b9&',
-                                                  'a9% = 2 : print a9% ^ 14; a9% ^ 15; a9% ^ 16',
-                                                  'return', 'a9& = 3 : print a9& ^ a9& ^ a9& ^ a9&'))}
+            return {'k': 'raw', 'text': r.choice(('x8& = 7 : y8& = 400000 : print x8& ^ y8&',
+                                                  'x8% = 2 : print x8% ^ 14; x8% ^ 15; x8% ^ 16',
+                                                  'return', 'x8& = 3 : print x8& ^ x8& ^ x8& ^ x8&'))}
         return {'k': 'raw', 'text': r.choice(self.RAW)}
 
     def input_stmt(self, sc):
